@@ -16,7 +16,8 @@ from ..common import Result, Violation
 from ..symx import CexFound, ConcreteEngine, explore
 
 PROP = "C08"
-KINDS = ["root", "sub:a", "sub:b", "sub:a/c", "multi2", "multi1"]
+# sub:train / sub:a/test: a sub-directory whose (last) name equals a split name
+KINDS = ["root", "sub:a", "sub:b", "sub:a/c", "multi2", "multi1", "sub:train", "sub:a/test"]
 FUNCS = [
     "sedpack.io.dataset:Dataset.create",
     "sedpack.io.dataset:Dataset.__init__",
@@ -61,6 +62,9 @@ def scenario(e, cfg):
     with common.scratch_dir("vt08_") as tmp:
         d = fillerlab.make_dataset(tmp / "ds", eps=(E if concrete else cfg.get("eps", 2)))
         hist = []
+        # the caller may construct all its fillers up-front and use them one after the other (write_multiprocessing does)
+        prebuild = bool(cfg["sessions"] > 1 and e.choice("fillers_constructed_up_front", 2))
+        plan = []
         for s in range(cfg["sessions"]):
             if s == 0 and "kind0" in cfg:
                 kind = KINDS[cfg["kind0"]]
@@ -69,8 +73,23 @@ def scenario(e, cfg):
                 kind = KINDS[e.choice(f"kind{s}", len(KINDS))]
             split = ("train", "test")[e.choice(f"split{s}", 2)]
             n = 1 + e.choice(f"n{s}", cfg.get("nchoices", 2))
-            reopen = e.choice(f"reopen{s}", 2) if s > 0 else 0
-            hist.append((kind, split, n, reopen))
+            reopen = e.choice(f"reopen{s}", 2) if (s > 0 and not prebuild) else 0
+            plan.append((kind, split, n, reopen))
+        prebuilt = {}
+        if prebuild:
+            # something is already committed when the fillers are constructed (they must not work from a snapshot of it)
+            with d.filler() as f0:
+                f0.write_example(values=fillerlab.example(900), split="train")
+                f0.write_example(values=fillerlab.example(901), split="test")
+            expected["train"].append(900)
+            expected["test"].append(901)
+            for s, (kind, split, n, reopen) in enumerate(plan):
+                if kind == "root" or kind.startswith("sub:"):
+                    rel = None if kind == "root" else Path(kind[4:])
+                    prebuilt[s] = fillerlab.open_filler(d, None if concrete else E, relative=rel)
+        for s in range(cfg["sessions"]):
+            kind, split, n, reopen = plan[s]
+            hist.append((kind, split, n, reopen) + (("prebuilt",) if s in prebuilt else ()))
             try:
                 if reopen:
                     d = Dataset(d.path)
@@ -78,7 +97,7 @@ def scenario(e, cfg):
                 nxt += n
                 if kind == "root" or kind.startswith("sub:"):
                     rel = None if kind == "root" else Path(kind[4:])
-                    filler = fillerlab.open_filler(d, None if concrete else E, relative=rel)
+                    filler = prebuilt[s] if s in prebuilt else fillerlab.open_filler(d, None if concrete else E, relative=rel)
                     ctx = filler.__enter__()
                     for v in vals:
                         ctx.write_example(values=fillerlab.example(v), split=split)
